@@ -58,7 +58,7 @@ var PointNames = []string{
 
 // ActionPoints are points used for harness actions (Points.On) only; they are not
 // part of PointNames, so the pseudo-random choice of sleep points stays what it was.
-var ActionPoints = []string{"provisioning.applylive.checked"}
+var ActionPoints = []string{"provisioning.applylive.checked", "lifecycle.recover.checked"}
 
 // InstallPoints installs the handler process-wide (cases run one at a time in a
 // worker process). maxUs: point name -> upper bound of the sleep in
